@@ -429,7 +429,69 @@ def standin_final_density_scenarios(tier, seed):
                 failures=len(fails), exhaustive=True, _fails=fails)
 standin_final_density_scenarios.prop = "C09"
 
-STANDINS = [standin_density, standin_trajectories, standin_noise_models, standin_conversions, standin_final_density_scenarios]
+def standin_factoring(tier, seed):
+    """factor / kron of density tensors and state vectors: every ordered subset of the axes of 3 qubits (and a qutrit layout)"""
+    import itertools
+
+    import cirq
+    from cirq.linalg import transformations as tr
+
+    warnings.simplefilter("ignore")
+    rng = random.Random(seed + 21)
+    cases, fails = 0, []
+
+    def bad(what, **kw):
+        fails.append(dict(args={k: repr(v)[:300] for k, v in kw.items()}, failed=what, clause=what))
+
+    for shape in ((2, 2, 2), (2, 3, 2)):
+        n = len(shape)
+        for k in range(1, n):
+            for axes in itertools.permutations(range(n), k):
+                rest = [i for i in range(n) if i not in axes]
+                da, db = int(np.prod([shape[i] for i in axes])), int(np.prod([shape[i] for i in rest]))
+                a = cirq.testing.random_density_matrix(da, random_state=rng.randrange(10 ** 6))
+                b = cirq.testing.random_density_matrix(db, random_state=rng.randrange(10 ** 6))
+                sa, sb = [shape[i] for i in axes], [shape[i] for i in rest]
+                # product state with `axes` carrying a (in that order) and the remaining axes carrying b
+                t = np.kron(a, b).reshape(sa + sb + sa + sb)
+                perm = list(axes) + rest
+                inv = [perm.index(i) for i in range(n)]
+                t = np.transpose(t, inv + [n + i for i in inv])
+                cases += 1
+                try:
+                    e, r = tr.factor_density_matrix(t, list(axes), validate=True)
+                    if not np.allclose(e.reshape(da, da), a, atol=1e-7) or not np.allclose(r.reshape(db, db), b, atol=1e-7):
+                        bad("factor_density_matrix returned wrong factors for a product state", shape=shape, axes=axes)
+                except ValueError as ex:
+                    bad("factor_density_matrix rejects a genuine product state", shape=shape, axes=axes, error=str(ex))
+                va = cirq.testing.random_superposition(da, random_state=rng.randrange(10 ** 6))
+                vb = cirq.testing.random_superposition(db, random_state=rng.randrange(10 ** 6))
+                v = np.transpose(np.kron(va, vb).reshape(sa + sb), inv)
+                cases += 1
+                try:
+                    e, r = tr.factor_state_vector(v, list(axes), validate=True)
+                    if abs(abs(np.vdot(e.reshape(-1), va)) - 1) > 1e-6 or abs(abs(np.vdot(r.reshape(-1), vb)) - 1) > 1e-6:
+                        bad("factor_state_vector returned wrong factors for a product state", shape=shape, axes=axes)
+                except ValueError as ex:
+                    bad("factor_state_vector rejects a genuine product state", shape=shape, axes=axes, error=str(ex))
+    # entangled inputs must be rejected
+    ghz = np.zeros((2, 2, 2), dtype=complex)
+    ghz[0, 0, 0] = ghz[1, 1, 1] = np.sqrt(0.5)
+    rho = np.outer(ghz.reshape(-1), ghz.reshape(-1).conj()).reshape((2,) * 6)
+    for axes in ([0], [1], [2], [0, 1], [2, 0]):
+        cases += 1
+        for name, fn, arg in (("factor_density_matrix", tr.factor_density_matrix, rho), ("factor_state_vector", tr.factor_state_vector, ghz)):
+            try:
+                fn(arg, axes, validate=True)
+                bad(f"{name} accepts an entangled state", axes=axes)
+            except ValueError:
+                pass
+    return dict(function="cirq-core/cirq/linalg/transformations.py:factor_density_matrix/factor_state_vector", case="factoring",
+                bound="every ordered proper subset of axes of a (2,2,2) and a (2,3,2) register, random product states; GHZ rejected", cases=cases, distinct=cases,
+                failures=len(fails), exhaustive=True, _fails=_uniq(fails))
+standin_factoring.prop = "C09"
+
+STANDINS = [standin_factoring, standin_density, standin_trajectories, standin_noise_models, standin_conversions, standin_final_density_scenarios]
 NOT_COVERED = ["device-derived noise (NoiseModelFromNoiseProperties / superconducting qubit properties): not covered", "qudit channels: only via C02/C04 stand-ins",
                "entanglement fidelity / measures (qis/measures.py): not covered"]
 EXPLANATION = "simulators end to end (density matrix, exact enumeration of state-vector trajectories, noise models, numeric conversions): bounded stand-ins. "
